@@ -30,7 +30,7 @@ CLAIMED = {
  'C11': ('Under dynamic registration (Props/C11b.lean): dyn_excluded_param_rejected / dyn_accepted_is_bindable / dyn_block_member_is_binding — '
          'the bindable parameters are fixed by the registration, in every context and after every history; tied to gin.config by C19-generator '
          'files over objects registered from Python with allow / deny lists. '
-         'Theorems parseKey_sound / bind_sound / bind_reject_unchanged / finalize_hooks_validated / method_needs_class hold for every '
+         'Theorems parseKey_sound / bind_sound / bind_reject_unchanged / finalize_hooks_validated / method_needs_class / positional_only_not_bindable (D56: a parameter only a positional argument can fill is refused on every path, unless the callable takes **kwargs) hold for every '
          'registry, key spelling and state; every binding path of the mirror goes through parseKey; the mirror is tied to gin.config by '
          'generated binding attempts of every validity class through tuple / list / string keys, config text, blocks and finalize hooks, '
          'with the whole store observed after each; an independent Python reference of the validity rule judges the implementation. Table on the real code: a functools.partial as a configurable (the consumed parameter is refused on every binding path).',
@@ -158,7 +158,7 @@ CLAIMED = {
  'C07': ('Theorems operative_suffices_to_replay (for any sequence of calls from an empty record with fixed bindings: in the configuration '
          'holding exactly the final operative record, every accepted call is accepted again, Gin supplies it exactly the values it supplied the '
          'first time and it records what it recorded; with replay_supplies_same / replay_records_same / runCalls_invariant) / operative_param (exact per-parameter characterisation of what one call records) / operative_excludes_caller_supplied / '
-         'operative_only_supplied (binding, or configurable representable default) / call_records (entry update, frame for never-called '
+         'operative_only_supplied (binding, or configurable representable default) / positional_only_default_not_recorded (D56/D57) / call_records (entry update, frame for never-called '
          'configurables) / rejected_call_records_nothing hold for every signature, lists, store, scope and argument split; the mirror is '
          'tied to gin.config by comparing the parsed operative_config_str() after every call; the replay half (clear, parse the text, '
          'repeat the calls: same arguments, same text) is executed on the real code for every generated case with a fixed store. A table on the real code checks that the operative text is still produced and parses after a call that evaluated an unbound macro, and that a recorded reference survives the re-registration of its class.',
